@@ -4,6 +4,7 @@ mod common;
 mod bl;
 mod ck;
 mod cms;
+mod hll;
 mod qf;
 
 use common::*;
@@ -83,6 +84,10 @@ fn main() {
         ("scenario", "cmsz") => scenario::<cms::CmsSut<usize>>(&args),
         ("drive", "cms") => cms::drive(&args),
         ("learn", "cms") => cms::learn(&args),
+        ("replay", "hll") => replay::<hll::HllSut>(&args),
+        ("scenario", "hll") => scenario::<hll::HllSut>(&args),
+        ("drive", "hll") => hll::drive(&args),
+        ("serde", "hll") => hll::serde_docs(&args),
         ("replay", "ck") => replay::<ck::CkSut>(&args),
         ("scenario", "ck") => scenario::<ck::CkSut>(&args),
         ("drive", "ck") => ck::drive(&args),
